@@ -176,13 +176,30 @@ func (w *Worktree) PullContext(ctx context.Context, o *PullOptions) error {
 		return err
 	}
 
+	// Refuse a dirty worktree before the branch is moved to the fetched
+	// commit, not after.
+	cfg, err := w.r.Config()
+	if err != nil {
+		return err
+	}
+
+	unstaged, err := w.containsUnstagedChanges(cfg)
+	if err != nil {
+		return err
+	}
+
+	if unstaged {
+		return ErrUnstagedChanges
+	}
+
 	if err := w.updateHEAD(ref.Hash()); err != nil {
 		return err
 	}
 
 	if err := w.Reset(&ResetOptions{
-		Mode:   MergeReset,
-		Commit: ref.Hash(),
+		Mode:            MergeReset,
+		Commit:          ref.Hash(),
+		unstagedChecked: true,
 	}); err != nil {
 		return err
 	}
